@@ -213,7 +213,60 @@ func (p c01) concretePartner(c *core.Ctx) {
 	c.Nontrivial("concretepartner-ok|" + g.Sc.GraphSig())
 }
 
+// sharedSettings: a registered component whose type also announces a configuration prefix (ConfigurationProperties)
+// and that several holders declare by pointer with a wire tag: the field is a wiring point AND a bound configuration
+// struct. All holders end up with the one registered component - never with a private, equally filled copy the
+// binder allocated.
+func (p c01) sharedSettings(c *core.Ctx) {
+	w := func() string { return plainWords[c.Rng.Intn(len(plainWords))] }
+	host, port := w()+"-db", 1+c.Rng.Intn(9000)
+	doc := fmt.Sprintf("c11:\n  sub:\n    s: %s\n    n: %d\n", host, port)
+	shared := &world.PtrPrefixed{}
+	if c.Rng.Intn(2) == 0 {
+		shared.Keep, shared.N = host, port // registered with the very contents the configuration holds
+	}
+	dt := reflect.TypeOf(shared)
+	nH := 1 + c.Rng.Intn(4)
+	extra := []any{shared}
+	var holders []any
+	for i := 0; i < nH; i++ {
+		fields := []world.FieldSpec{{Name: "DB", Type: dt, Tag: `wire:""`}}
+		if c.Rng.Intn(2) == 0 {
+			fields = append(fields, world.FieldSpec{Name: "N", Type: reflect.TypeOf(0), Tag: `value:"${c11.sub.n}"`})
+		}
+		if c.Rng.Intn(3) == 0 {
+			fields = append(fields, world.FieldSpec{Name: "Copy", Type: dt.Elem()}) // a by-value member: a bound copy, by design
+		}
+		fields = append(fields, world.FieldSpec{Name: fmt.Sprintf("Pad%d", i), Type: reflect.TypeOf("")}) // distinct holder types
+		c.Rng.Shuffle(len(fields), func(a, b int) { fields[a], fields[b] = fields[b], fields[a] })
+		h := world.NewHolder(world.BuildStruct(fields))
+		holders = append(holders, h)
+		extra = append(extra, h)
+	}
+	c.Rng.Shuffle(len(extra), func(a, b int) { extra[a], extra[b] = extra[b], extra[a] })
+	r := world.Start(&world.Scenario{Config: doc}, world.Options{Extra: extra, NoTracer: true})
+	c.Count("starts", 1)
+	c.Count("shared_settings_starts", 1)
+	detail := map[string]any{"document": doc, "holders": nH, "outcome": core.Short(r.OutcomeDetail(), 600)}
+	if r.Outcome() != "ok" {
+		c.Fail("", "holders of a registered settings component: start did not succeed: "+core.Short(r.OutcomeDetail(), 300), detail)
+		return
+	}
+	for i, h := range holders {
+		got, _ := reflect.ValueOf(h).Elem().FieldByName("DB").Interface().(*world.PtrPrefixed)
+		if got != shared {
+			c.Fail("", fmt.Sprintf("two instances of the singleton *PtrPrefixed: holder %d's `wire:\"\"` field holds %p (%+v) but the registered component is %p", i, got, got, shared), detail)
+			return
+		}
+	}
+	c.Nontrivial(fmt.Sprint("sharedsettings|", nH, host))
+}
+
 func (p c01) Run(c *core.Ctx) {
+	if c.Index%16 == 14 && c.Index < p.randomCount(c.Tier) {
+		p.sharedSettings(c)
+		return
+	}
 	if c.Index%16 == 13 && c.Index < p.randomCount(c.Tier) {
 		p.concretePartner(c)
 		return
